@@ -114,6 +114,7 @@ class Interp:
         raises=None,
         ignore_calls=PRINT_FUNCS,
         assert_is_effect=False,
+        watch=(),
     ):
         self.atom = atom
         self.effect_fn = effect
@@ -124,6 +125,7 @@ class Interp:
         self.effects = []
         self.trace = []  # (expr text, truth) of atoms consulted, for diagnostics
         self.assert_is_effect = assert_is_effect
+        self.watch = set(watch)  # call names recorded as ("CALL", name, call) even inside values
 
     # ------------------------------------------------------------- expressions
     def sub(self, expr):
@@ -148,6 +150,19 @@ class Interp:
                     return False
                 left = right
             return True
+        if (
+            isinstance(e, ast.Compare)
+            and len(e.ops) == 1
+            and isinstance(e.left, ast.Constant)
+            and isinstance(e.comparators[0], ast.Constant)
+            and isinstance(e.ops[0], (ast.Is, ast.IsNot, ast.Eq, ast.NotEq))
+        ):
+            same = e.left.value == e.comparators[0].value and type(e.left.value) is type(
+                e.comparators[0].value
+            )
+            return same if isinstance(e.ops[0], (ast.Is, ast.Eq)) else not same
+        if isinstance(e, ast.JoinedStr):
+            return True
         if isinstance(e, (ast.List, ast.Tuple, ast.Set)) and not e.elts:
             return False
         if isinstance(e, ast.Dict) and not e.keys:
@@ -164,8 +179,29 @@ class Interp:
 
     def value(self, expr):
         """Copy-propagated expression with decidable conditional expressions resolved."""
+        if self.watch:
+            self._record_calls(expr)
         e = self.sub(expr)
-        return self._resolve_ifexp(e)
+        e = self._resolve_ifexp(e)
+        return e
+
+    def _record_calls(self, orig):
+        """watched calls written in the original statement (not those that copy
+        propagation brings in) are recorded as effects, innermost first"""
+        todo = [orig]
+        found = []
+        while todo:
+            x = todo.pop()
+            if isinstance(x, ast.Lambda):
+                continue
+            if isinstance(x, ast.Call):
+                f = x.func
+                nm = f.id if isinstance(f, ast.Name) else f.attr if isinstance(f, ast.Attribute) else None
+                if nm in self.watch:
+                    found.append(("CALL", nm, self.sub(x)))
+            todo.extend(ast.iter_child_nodes(x))
+        for f in reversed(found):
+            self.effects.append(f)
 
     def _resolve_ifexp(self, e):
         if isinstance(e, ast.IfExp):
@@ -240,6 +276,12 @@ class Interp:
             r = self._check_raise(st)
             if r:
                 return Exit("raise", ast.Name(id=r, ctx=ast.Load()), st)
+            if self.watch and isinstance(st.value, ast.Call):
+                f = st.value.func
+                nm = f.id if isinstance(f, ast.Name) else f.attr if isinstance(f, ast.Attribute) else None
+                if nm in self.watch:
+                    self.value(st.value)
+                    return None
             self.emit(self._sub_stmt(st), st)
             return None
         if isinstance(st, ast.Return):
